@@ -13,8 +13,8 @@ import (
 
 type HB string // hex bytes
 
-func hb(s string) HB         { return HB(hex.EncodeToString([]byte(s))) }
-func (h HB) String() string  { b, _ := hex.DecodeString(string(h)); return string(b) }
+func hb(s string) HB        { return HB(hex.EncodeToString([]byte(s))) }
+func (h HB) String() string { b, _ := hex.DecodeString(string(h)); return string(b) }
 func hbs(ss []string) []HB {
 	out := make([]HB, len(ss))
 	for i, s := range ss {
